@@ -182,10 +182,15 @@ def in_range(v, rng):
 class RgbFunc(SubCheck):
     name = "rgbfunc"
 
-    def __init__(self, svg):
+    def __init__(self, svg, tier="quick"):
         self.svg = svg
-        self.pi = Product(["int"], INTS, INTS, INTS, ALPHAS, [0, 1, 2])
-        self.pp = Product(["pct"], PCTS, PCTS, PCTS, ALPHAS, [0, 1, 2])
+        ints, pcts, alphas = INTS, PCTS, ALPHAS
+        if tier == "thorough":
+            ints = INTS + ["2", "17", "64", "200", "254", "-1", "1000"]
+            pcts = PCTS + ["0.4", "1", "12.5", "49.8", "66.6667", "99.9", "100.1", "-0.1", "1e3"]
+            alphas = ALPHAS + ["0.001", "0.002", "0.498", "0.502", "0.9961", "1e-9", "1.0001"]
+        self.pi = Product(["int"], ints, ints, ints, alphas, [0, 1, 2])
+        self.pp = Product(["pct"], pcts, pcts, pcts, alphas, [0, 1, 2])
 
     def size(self):
         return len(self.pi) + len(self.pp)
@@ -227,9 +232,13 @@ SL = ["-10", "0", "25", "50", "75", "100", "110"]
 class HslFunc(SubCheck):
     name = "hslfunc"
 
-    def __init__(self, svg):
+    def __init__(self, svg, tier="quick"):
         self.svg = svg
-        self.p = Product(HUES, SL, SL, [None, "0.5"])
+        hues, sl = HUES, SL
+        if tier == "thorough":
+            hues = [str(h) for h in range(-750, 1111, 15)] + ["359.9", "-0.1", "-359.9", "47.5", "-312.5", "0.5", "119.99", "240.01"]
+            sl = ["-10", "0", "1", "10", "25", "33.3", "50", "66.7", "75", "90", "99", "100", "110"]
+        self.p = Product(hues, sl, sl, [None, "0.5", "0", "1"])
 
     def size(self):
         return len(self.p)
@@ -457,7 +466,7 @@ def stale_check(svg, tier):
 
 
 def build(tier, seed, svg):
-    return [Keywords(svg), ShortHex(svg), LongHex(svg, tier), RgbFunc(svg), HslFunc(svg), Setters(svg),
+    return [Keywords(svg), ShortHex(svg), LongHex(svg, tier), RgbFunc(svg, tier), HslFunc(svg, tier), Setters(svg),
             Packings(svg, tier), HslAccess(svg), stale_check(svg, tier)]
 
 
